@@ -635,7 +635,20 @@ def r_entry(E):
                     f"validated and never triggers recomputation", rel, site.lineno, q))
             elif len(res.samples) < 6:
                 res.samples.append({"function": q, "site": norm(site)[:80], "allowed_because": ENTRY_ALLOWED[q]})
-    # overrides of __setattr__ in model classes
+    from ..paths import enumerate_paths, path_formula, implies, consistent, parse, formula
+    from ..astutil import fully_expanded, inline_helpers
+
+    def is_event(n):
+        return isinstance(n, ast.Call) and (
+            (isinstance(n.func, ast.Attribute) and n.func.attr == "__setattr__") or
+            (isinstance(n.func, ast.Name) and n.func.id in ("ModelingUpdate", "setattr")))
+
+    def super_setattr_calls(path):
+        return [c for c in path.calls() if isinstance(c.func, ast.Attribute) and c.func.attr == "__setattr__"
+                and isinstance(c.func.value, ast.Call) and norm(c.func.value.func) == "super"]
+
+    # overrides of __setattr__ in model classes: every path that does not raise ends in super().__setattr__ with the
+    # same name / value (and the validity flag threaded through)
     for cn, ci in sorted(pm.classes.items()):
         if not pm.is_model(cn) or cn == "ModelingObject":
             continue
@@ -644,76 +657,105 @@ def r_entry(E):
             continue
         res.instances += 1
         params = [a.arg for a in fn.args.args]
-        last = fn.body[-1]
-        ok = isinstance(last, ast.Expr) and isinstance(last.value, ast.Call) and norm(last.value.func) == \
-            "super().__setattr__" and [norm(a) for a in last.value.args[:2]] == params[1:3]
-        # every earlier statement is a raise-only guard
-        for s in fn.body[:-1]:
-            if not (isinstance(s, ast.If) and all(isinstance(x, ast.Raise) for x in s.body) and not s.orelse):
+        ok = True
+        for path in enumerate_paths(inline_helpers(fn, pm.helper_finder(cn), only=is_event), is_event):
+            if path.end == "raise":
+                continue
+            sc = super_setattr_calls(path)
+            if len(sc) != 1 or [norm(fully_expanded(a, fn)) for a in sc[0].args[:2]] != params[1:3]:
                 ok = False
-        # the validity flag is threaded through
-        if ok and len(params) > 3:
-            kws = {k.arg: norm(k.value) for k in last.value.keywords}
-            extra = [norm(a) for a in last.value.args[2:]]
-            if kws.get(params[3]) != params[3] and extra != [params[3]]:
-                ok = False
+                continue
+            if len(params) > 3:
+                kws = {k.arg: norm(k.value) for k in sc[0].keywords}
+                extra = [norm(a) for a in sc[0].args[2:]]
+                if kws.get(params[3]) != params[3] and extra != [params[3]]:
+                    ok = False
         if not ok:
             res.findings.append(Finding(
                 "R-ENTRY", f"{cn}.__setattr__ override",
                 f"{cn}.__setattr__ does not end every non-raising path with super().__setattr__({', '.join(params[1:])}): "
                 f"some assignments bypass validation and the update machinery", ci.path, fn.lineno, f"{cn}.__setattr__"))
-    # the wrapper forwards every non-wrapper name
+    # the wrapper forwards every non-wrapper name: on every path, either the name is one of the wrapper's own three
+    # fields and it is stored locally, or it is forwarded to the wrapped object with setattr
     rel, fn = pm.find_function(CM, "ContextualModelingObjectAttribute.__setattr__")
     res.instances += 1
-    iff = fn.body[0] if fn.body and isinstance(fn.body[0], ast.If) else None
     ps = [a.arg for a in fn.args.args]
-    fwd_ok = iff is not None and len(fn.body) == 1 and iff.orelse and len(ps) == 3 and \
-        norm(iff.orelse[0]) == f"setattr({ps[0]}._value, {ps[1]}, {ps[2]})"
+    fwd_ok = len(ps) == 3
+    own_tests = [c for c in ast.walk(fn) if isinstance(c, ast.Compare) and len(c.ops) == 1
+                 and isinstance(c.ops[0], (ast.In, ast.NotIn)) and norm(c.left) == (ps[1] if len(ps) > 1 else "")]
+    names, own = None, None
+    if own_tests:
+        coll = own_tests[0].comparators[0]
+        lit = coll
+        if isinstance(coll, ast.Name):
+            modname = next((m for m, (r, t, _) in pm.modules.items() if r == rel), None)
+            lit = pm._module_const(modname, coll.id) if modname else None
+            if isinstance(lit, tuple):
+                lit = lit[-1]
+        if isinstance(lit, (ast.List, ast.Tuple, ast.Set)) and all(isinstance(e, ast.Constant) for e in lit.elts):
+            names = {e.value for e in lit.elts}
+        own = formula(ast.Compare(left=own_tests[0].left, ops=[ast.In()], comparators=[coll]), fn)
+    if names != {"_value", "modeling_obj_container", "attr_name_in_mod_obj_container"}:
+        fwd_ok = False
     if fwd_ok:
-        lst = iff.test.comparators[0] if isinstance(iff.test, ast.Compare) else None
-        names = {e.value for e in lst.elts} if isinstance(lst, (ast.List, ast.Tuple, ast.Set)) else None
-        if names != {"_value", "modeling_obj_container", "attr_name_in_mod_obj_container"}:
-            fwd_ok = False
+        want_fwd = f"setattr({ps[0]}._value, {ps[1]}, {ps[2]})"
+        for path in enumerate_paths(fn, is_event):
+            if path.end == "raise":
+                continue
+            pf = path_formula(path.conds, fn)
+            calls = [norm(c) for c in path.calls()]
+            if consistent(pf, ("not", own)) and want_fwd not in calls:
+                fwd_ok = False
+            if consistent(pf, own) and not any(
+                    [norm(a) for a in c.args[:2]] == ps[1:3] for c in super_setattr_calls(path)):
+                fwd_ok = False
     if not fwd_ok:
         res.findings.append(Finding(
             "R-ENTRY", "ContextualModelingObjectAttribute.__setattr__ forward",
             "the link wrapper no longer forwards every non-wrapper attribute assignment to the wrapped object with "
             "setattr (assignments through a link would land on the wrapper and be lost)", rel, fn.lineno,
             "ContextualModelingObjectAttribute.__setattr__"))
-    # the entry point routes post-init assignments of non-calculated attributes into a ModelingUpdate
-    rel, fn = pm.find_function(MO, "ModelingObject.__setattr__")
+    # the entry point: a path stores directly only for bookkeeping names, calculated attributes or objects under
+    # construction; every other path goes into ModelingUpdate([[<current value of the attribute>, <new value>]])
+    rel, fn0 = pm.find_function(MO, "ModelingObject.__setattr__")
     res.instances += 1
-    top = next((s for s in fn.body if isinstance(s, ast.If)), None)
-    node = top
-    while node is not None and node.orelse and len(node.orelse) == 1 and isinstance(node.orelse[0], ast.If):
-        node = node.orelse[0]
-    final = node.orelse if node is not None else []
+    fn = inline_helpers(fn0, pm.helper_finder("ModelingObject"), only=is_event)
     ps = [a.arg for a in fn.args.args]
-    cur = {norm(n.targets[0]) for n in ast.walk(fn) if isinstance(n, ast.Assign) and isinstance(n.value, ast.Call)
-           and norm(n.value.func) == "getattr" and len(n.value.args) >= 2 and norm(n.value.args[0]) == ps[0]
-           and norm(n.value.args[1]) == ps[1]}
-    ok = False
-    for st in final:
-        for c in _calls(st):
+    G = parse(f"{ps[1]} in {ps[0]}.attributes_that_shouldnt_trigger_update_logic or "
+              f"{ps[1]} in {ps[0]}.calculated_attributes or not {ps[0]}.trigger_modeling_updates")
+    update_seen, update_missing, bad_store = False, None, None
+    for path in enumerate_paths(fn, is_event):
+        if path.end == "raise":
+            continue
+        pf = path_formula(path.conds, fn)
+        mus = []
+        for c in path.calls():
             if isinstance(c.func, ast.Name) and c.func.id == "ModelingUpdate" and c.args and isinstance(c.args[0], ast.List) \
                     and len(c.args[0].elts) == 1 and isinstance(c.args[0].elts[0], ast.List) \
                     and len(c.args[0].elts[0].elts) == 2:
                 a, b = c.args[0].elts[0].elts
-                if norm(a) in cur and norm(b) == ps[2]:
-                    ok = True
-    if not ok:
+                if norm(fully_expanded(a, fn)).startswith(f"getattr({ps[0]}, {ps[1]}") and norm(fully_expanded(b, fn)) == ps[2]:
+                    mus.append(c)
+        direct = implies(pf, G)
+        if super_setattr_calls(path) and not direct:
+            bad_store = path
+        if not direct:
+            if mus:
+                update_seen = True
+            else:
+                update_missing = path
+    if not update_seen or update_missing is not None:
         res.findings.append(Finding(
             "R-ENTRY", "ModelingObject.__setattr__ update branch",
             "ModelingObject.__setattr__ no longer routes a post-init assignment into "
-            "ModelingUpdate([[<current value of the attribute>, <new value>]])", rel, fn.lineno,
+            "ModelingUpdate([[<current value of the attribute>, <new value>]])", rel, fn0.lineno,
             "ModelingObject.__setattr__"))
-    else:
-        cond = norm(node.test)
-        if "self.calculated_attributes" not in cond or "trigger_modeling_updates" not in cond:
-            res.findings.append(Finding(
-                "R-ENTRY", "ModelingObject.__setattr__ direct-store condition",
-                f"the direct-store branch is taken under `{cond}`: it must be limited to calculated attributes and "
-                f"objects under construction", rel, node.lineno, "ModelingObject.__setattr__"))
+    if bad_store is not None:
+        cond = " and ".join(("" if pol else "not ") + "(" + norm(t) + ")" for t, pol in bad_store.conds)
+        res.findings.append(Finding(
+            "R-ENTRY", "ModelingObject.__setattr__ direct-store condition",
+            f"the direct-store branch is taken under `{cond[:160]}`: it must be limited to calculated attributes and "
+            f"objects under construction", rel, fn0.lineno, "ModelingObject.__setattr__"))
     res.floor = 10
     return res
 
